@@ -61,6 +61,8 @@ const prelude = `(declare-sort Ref 0)
 (declare-fun ibase (Ref) Ref)
 (declare-fun iidx (Ref) Int)
 (declare-fun idx (Ref Int) Ref)
+(declare-fun eaddr (Slice Int) Ref)
+(assert (forall ((s Slice) (i Int)) (! (= (eaddr s i) (idx (sl.arr s) (+ (sl.off s) i))) :pattern ((eaddr s i)))))
 (declare-fun slen (Str) Int)
 (declare-fun sat (Str Int) Int)
 (declare-fun ssub (Str Int Int) Str)
@@ -284,7 +286,11 @@ func (e *Env) fieldFn(t types.Type, i int) string {
 
 func (e *Env) fieldFnNamed(name string) string {
 	if _, ok := e.fieldTag[name]; !ok {
-		e.fieldTag[name] = len(e.fieldTag) + 1
+		if strings.HasPrefix(name, "gfld_") {
+			e.fieldTag[name] = 1000000 + len(e.fieldTag) + 1
+		} else {
+			e.fieldTag[name] = len(e.fieldTag) + 1
+		}
 	}
 	tag := e.fieldTag[name]
 	e.decl("fun:"+name, fmt.Sprintf("(declare-fun %s (Ref) Ref)\n(assert (forall ((x Ref)) (! (and (= (fbase (%s x)) x) (= (ftag (%s x)) %d) (= (stamp (%s x)) (stamp x)) (not (= (%s x) nil))) :pattern ((%s x)))))",
